@@ -17,7 +17,7 @@ import numpy as np
 
 from .. import bootstrap as B
 from ..common import (
-    ALL_METRICS, REAL_DOMAIN, OutOfDomain, Stop, arr, gen_labels, gen_matrix, iarr,
+    lay_out, ALL_METRICS, REAL_DOMAIN, OutOfDomain, Stop, arr, gen_labels, gen_matrix, iarr,
     knn_all_zero_accuracy, lib_call, metric_class, style_for_metric,
 )
 from ..engine import EventLog, Outcome, SimAbort, bump, h64, violation
@@ -44,7 +44,7 @@ ASSUMPTIONS = [
 KINDS = ("supervised", "semi", "knn", "unsup", "unsup_prop")
 
 
-EXPECTED_PROBES = ['distance_matrix_unrelated_to_features', 'query_of_overflowing_magnitude', 'non_float64_features', 'index_arrays_passed_without_precomputed_distances', 'batch_longer_than_training_set', 'duplicates_inside_one_batch', 'model_', 'position_ge1_is_valid_training_index', 'query_equals_training_sample', 'query_raises_consistently', 'successful_predict_after_abort']
+EXPECTED_PROBES = ['non_contiguous_arrays', 'distance_matrix_unrelated_to_features', 'query_of_overflowing_magnitude', 'non_float64_features', 'index_arrays_passed_without_precomputed_distances', 'batch_longer_than_training_set', 'duplicates_inside_one_batch', 'model_', 'position_ge1_is_valid_training_index', 'query_equals_training_sample', 'query_raises_consistently', 'successful_predict_after_abort']
 
 
 def arms(tier):
@@ -76,6 +76,8 @@ def gen_case(rng, arm, tier, k=0):
         case["dtype"] = rng.choice(B.DTYPES)
         case["metric"] = metric = rng.choice(B.DTYPE_METRICS)
         case["X"] = X = [[float(int(abs(v)) % 4) for v in r] for r in X]
+    if rng.random() < 0.25:
+        case["layout"] = rng.choice(("f", "strided", "cols"))  # non-contiguous training and query arrays
     if arm != "pre" and rng.random() < 0.15:
         # the caller passes index arrays although distances are computed on the fly: they only
         # name the samples and must not influence any label (small values collide with training idx)
@@ -176,7 +178,12 @@ def tarr(case, rows):
     """Feature rows in the world's dtype (float64 unless the case says otherwise)."""
     a = arr(rows)
     dt = case.get("dtype", "float64")
-    return a if dt == "float64" else a.astype(dt)
+    if dt != "float64":
+        return a.astype(dt)
+    lay = case.get("layout", "c")
+    if lay != "c" and a.ndim == 2 and len(a):
+        return lay_out(a, lay)[1]
+    return a
 
 
 def build_model(case):
@@ -396,6 +403,8 @@ def run_case(case):
         bump(out.probes, "model_" + kind)
         if case.get("dtype"):
             bump(out.probes, "non_float64_features")
+        if case.get("layout"):
+            bump(out.probes, "non_contiguous_arrays")
         if case.get("free_matrix_seed") is not None:
             bump(out.probes, "distance_matrix_unrelated_to_features")
         if any(p_[0] == "row" and any(abs(v) >= 1e150 for v in p_[1]) for p_ in case["pool"]):
